@@ -34,8 +34,10 @@ def _ax_ymd(lo, hi):
 
 
 YEAR_OF = M.uf('greg_year', ['int'], 'int', lambda o: _dt.date.fromordinal(o).year if _ok_ord(o) else 0, axiom=(
-    'year of an ordinal in 1..3652059 is in 1..9999', lambda a, r: z3.Implies(z3.And(a[0].t >= MIN_ORD, a[0].t <= MAX_ORD), z3.And(r.t >= 1, r.t <= 9999)),
-    lambda a, r: not _ok_ord(a[0]) or 1 <= r <= 9999, [[1], [693596], [3652059]]))
+    'year of an ordinal in 1..3652059 is in 1..9999; ordinals from 693596 (1900-01-01) on have year >= 1900',
+    lambda a, r: z3.And(z3.Implies(z3.And(a[0].t >= MIN_ORD, a[0].t <= MAX_ORD), z3.And(r.t >= 1, r.t <= 9999)),
+                        z3.Implies(z3.And(a[0].t >= 693596, a[0].t <= MAX_ORD), r.t >= 1900)),
+    lambda a, r: not _ok_ord(a[0]) or (1 <= r <= 9999 and (a[0] < 693596 or r >= 1900)), [[1], [693595], [693596], [3652059]]))
 MONTH_OF = M.uf('greg_month', ['int'], 'int', lambda o: _dt.date.fromordinal(o).month if _ok_ord(o) else 0, axiom=(
     'month of an ordinal is in 1..12', lambda a, r: z3.Implies(z3.And(a[0].t >= MIN_ORD, a[0].t <= MAX_ORD), z3.And(r.t >= 1, r.t <= 12)),
     lambda a, r: not _ok_ord(a[0]) or 1 <= r <= 12, [[1], [693596], [3652059]]))
